@@ -1,4 +1,80 @@
-From AK Require Import Base.Prelude Bytes.FabHeaderProofs.
-Theorem C05_stub : forall z, Text.py_int (Text.str_of_Z z) = Some z.
-Proof. exact py_int_str_of_Z. Qed.
-Print Assumptions C05_stub.
+(* C05 - colander output holds exactly the kept fields and levels, bit for
+   bit.  Statements only.
+
+   The model of the whole tool is Writers.Colander.colander (directory image
+   -> directory image); the correspondence check compares it with the output
+   directory of Colander.strain byte for byte / token for token on every run.
+   What is PROVED about that model, for every input, is the binary core: the
+   per-file worker, variable resolution and the contents of a strained box.
+   The re-mapping of the returned offsets to box order (strain_level) and the
+   text rewriting of the two headers are part of the executable model and are
+   tied to the code by the correspondence only (C05 is therefore a partial
+   proof: see DESIGN.md). *)
+From AK Require Import Base.Prelude Bytes.Text Bytes.FabHeader Bytes.BinFile
+  Reader.Select Reader.BoxRead Reader.Level Reader.ReadSpec
+  Plotfile.TextHeader Taste.Taste Plotfile.Abstract
+  Writers.Colander Writers.ColanderSpec Writers.ColanderSpecProofs Writers.ColanderProofs.
+
+(* Variable resolution: every kept index names an input field, there is one
+   output name per kept index ('all', unknown names, repeats and any order
+   included). *)
+Theorem C05_resolve_vars : forall keys vars kept names,
+  resolve_vars keys vars = (kept, names) ->
+  length kept = length names /\ Forall (fun i => 0 <= i < blen keys) kept.
+Proof. exact resolve_vars_range. Qed.
+Print Assumptions C05_resolve_vars.
+
+(* The worker, on the image of ANY list of well-formed FABs (any box shapes,
+   2D or 3D, any number of boxes), handed ANY sub-list of its boxes in ANY
+   order with their true offsets: the output file is exactly the image of
+   those boxes restricted to the kept components in the requested order, and
+   the returned offsets are where each of them starts in the output. *)
+Theorem C05_worker_any_layout : forall (fs : list fab) (nvars : Z) (kept : list Z) (sel : list nat) (out0 : bytes),
+  Forall (fun fb => fab_ok fb = true /\ fab_nc fb = nvars) fs ->
+  Forall (fun i => 0 <= i < nvars) kept ->
+  Forall (fun k => (k < length fs)%nat) sel ->
+  let picked := map (fun k => nth k fs dummy_fab) sel in
+  strain_boxes (encode_file fs) nvars kept (map (box_of fs) sel) out0
+  = Some (out0 ++ encode_file (map (keep_fab kept) picked),
+          map (fun j => blen out0 + fab_offset (map (keep_fab kept) picked) j) (seq 0 (length sel))).
+Proof. exact strain_boxes_spec. Qed.
+Print Assumptions C05_worker_any_layout.
+
+(* Component j of an output box is bit for bit component kept[j] of the input
+   box with the same index range. *)
+Theorem C05_kept_fields_bit_identical : forall kept fb j,
+  fab_ok fb = true -> Forall (fun i => 0 <= i < fab_nc fb) kept -> (j < length kept)%nat ->
+  fab_lo (keep_fab kept fb) = fab_lo fb /\ fab_hi (keep_fab kept fb) = fab_hi fb /\
+  fab_comp (keep_fab kept fb) (Z.of_nat j) = fab_comp fb (nth j kept 0).
+Proof. intros; repeat split; apply keep_fab_comp; assumption. Qed.
+Print Assumptions C05_kept_fields_bit_identical.
+
+(* An output box is a well-formed FAB with one component per kept field (so
+   the validator theorems of C03 apply to files made of them). *)
+Theorem C05_strained_box_wf : forall kept fb, fab_ok fb = true ->
+  Forall (fun i => 0 <= i < fab_nc fb) kept ->
+  fab_ok (keep_fab kept fb) = true /\ fab_nc (keep_fab kept fb) = blen kept.
+Proof. intros kept fb H1 H2. split; [apply keep_fab_ok; assumption | reflexivity]. Qed.
+Print Assumptions C05_strained_box_wf.
+
+(* The textual header rewrite of the worker changes the component count and
+   nothing else, whatever digits the index ranges contain. *)
+Theorem C05_header_rewrite : forall lo hi nvars nkept,
+  py_replace (str_of_Z nvars ++ [nl]) (str_of_Z nkept ++ [nl]) (print_hdr lo hi nvars)
+  = print_hdr lo hi nkept.
+Proof. exact replace_count_in_header. Qed.
+Print Assumptions C05_header_rewrite.
+
+(* non-vacuity: two 2x1 boxes with 3 components stored in the order (1, 0),
+   strained to components [2; 0] in box order *)
+Example C05_worker_example :
+  let w (x : Z) := [ascii_of_nat (Z.to_nat x); "000"; "000"; "000"; "000"; "000"; "000"; "000"]%char in
+  let fb0 := {| fab_lo := [0; 0]; fab_hi := [1; 0]; fab_nc := 3;
+                fab_data := w 1 ++ w 2 ++ w 3 ++ w 4 ++ w 5 ++ w 6 |} in
+  let fb1 := {| fab_lo := [2; 0]; fab_hi := [3; 0]; fab_nc := 3;
+                fab_data := w 11 ++ w 12 ++ w 13 ++ w 14 ++ w 15 ++ w 16 |} in
+  let fs := [fb1; fb0] in
+  strain_boxes (encode_file fs) 3 [2; 0] (map (box_of fs) [1%nat; 0%nat]) []
+  = Some (encode_file [keep_fab [2; 0] fb0; keep_fab [2; 0] fb1],
+          [0; fab_size (keep_fab [2; 0] fb0)]).
+Proof. vm_compute. reflexivity. Qed.
